@@ -1,3 +1,56 @@
-"""Per-property texts for the evidence files: what is not decided, what is assumed."""
-NOT_DECIDED = {}
-ASSUMPTIONS = {}
+"""Per-property texts: what the static rules decide, what they do not, what is assumed.
+Used by the evidence writer and by tools/gen_manifest.py."""
+
+COMMON_NOTE = ("Trusted base: rustc nightly front end + MIR construction, /verif/driver (MIR->JSON), /verif/analysis "
+               "(CFG, dominance, symbolic slices) and the rule modules; documented semantics of the std/itertools/rand "
+               "items named in the rules. The rules are necessary structural conditions of the property over the "
+               "resolved program; value-level clauses listed under not_decided in the evidence are not claimed.")
+
+INFO = {
+    'C01': {
+        'decides': 'framing order prefix/body/suffix, identity byte<->id mapping and the 256 boundary, contiguous tiling of the '
+                   'special-token split, one token per Character with unknown fallback',
+        'not_decided': ['decode(encode(s)) == s as a value statement', 'correctness of the regex crate and of grapheme segmentation'],
+    },
+    'C02': {
+        'decides': 'agreement of merge id / token id (+256) / token-table index, byte provenance of merged tokens, single emitter of '
+                   'ids, no narrowing of positions, no ambient state, trainer/tokenizer share the word pattern, from_utf8 (error not panic)',
+        'not_decided': ['the round trip as a value statement', 'semantics of the word regex (drops only trailing whitespace)',
+                        'UTF-8 validity of concatenated token bytes as a value fact'],
+    },
+    'C03': {
+        'decides': 'the merge heap is drained (no early exit), re-pushed stamps are read after the state update, staleness filter, '
+                   'ordering key (Reverse(id), Reverse(left index)), nearest live neighbours in text order, both neighbours '
+                   'reconsidered after every merge, no emitter bypassing the merge loop',
+        'not_decided': ['equality with a reference BPE as a value statement (the rules are the premises of the standard '
+                        'lazy-deletion priority-queue argument; the argument itself is on paper)'],
+    },
+    'C04': {
+        'decides': 'offsets between id spaces (256, table length, Vocab::len), special offset provenance per tokenizer kind, '
+                   'Vocab::build chain and reverse map, pad/prefix/suffix ids looked up in the built vocabulary, vocab_size formulas',
+        'not_decided': ['pad_to_multiple_of arithmetic yields a multiple (value fact)', 'bijectivity as a value statement'],
+    },
+    'C05': {
+        'decides': 'every shape condition of the ticket protocol on every path of the worker: ticket under the lock on the enumerated '
+                   'iterator, turn wait with single exit, send-before-advance, advance on every path, single writer of the turn, '
+                   'blocking recv, sender lifetime, worker count >= 1, no Clone bound / no item drop',
+        'not_decided': ['the interleaving argument itself (two-line invariant on paper: send_next = number of attempted sends)',
+                        'liveness under an unfair scheduler (spin wait)', 'memory-model facts beyond "ordering is not Relaxed"'],
+    },
+    'C06': {'decides': '', 'not_decided': []},
+    'C07': {
+        'decides': 'termination shape of the interleaved scan (continues only after observing finished[c]; +1 mod n; precondition '
+                   '!all_finished), mark-before-reselect, None only under all_finished, tagging before re-selection, single puller, '
+                   'sequential/weighted arm tables, seeded rng',
+        'not_decided': ['round-robin fairness beyond "advance by one, skip finished"', 'exactly-once as a value statement'],
+    },
+    'C09': {
+        'decides': 'send errors leave the producer loops, channels are bounded by the caller-given capacity, one pull per blocking '
+                   'send, turn advanced on the error path, panic hook installed before spawn and cannot return',
+        'not_decided': ['wall-clock promptness', 'std semantics of panic hooks / process::exit are assumed',
+                        'train_bpe installing another hook later (a history of API calls) is outside the quantifier'],
+    },
+}
+
+NOT_DECIDED = {k: v.get('not_decided', []) for k, v in INFO.items()}
+ASSUMPTIONS = {k: v.get('assumptions', []) for k, v in INFO.items()}
